@@ -165,6 +165,25 @@ class Gen:
             return [Compound("%s.each do |<v:%s>|" % (recv, p), [body], [], kind="block")]
         return [Compound("%s.each { |<v:%s>|" % (recv, p), [body], [], footer="}", kind="block")]
 
+    def union_block_stmt(self):
+        """a block call on a receiver of union type (Array or Range)"""
+        u = self.fresh("v", "ur")
+        c = self.fresh("v", "c")
+        p = self.fresh("v", "e")
+        self.vars.append(u)
+        body = [Simple("dbtp <v:%s>" % p, "dbtp")]
+        if self.r.random() < 0.5:
+            body.insert(0, Simple("<v:%s> = 1" % self.fresh("v", "y"), "assign"))
+        return [Simple("<v:%s> = true" % c, "assign"), Simple("<v:%s> = <v:%s> ? [1, 2] : (1..3)" % (u, c), "assign"),
+                Compound("<v:%s>.each do |<v:%s>|" % (u, p), [body], [], kind="block")]
+
+    def nested_block_stmt(self):
+        """a block whose body holds a block call on a union-typed receiver"""
+        p = self.fresh("v", "e")
+        inner = self.union_block_stmt()
+        body = [Simple("<v:%s> = <v:%s>" % (self.fresh("v", "y"), p), "assign")] + inner + [Simple("dbtp <v:%s>" % p, "dbtp")]
+        return [Compound("[1, 2, 3].each do |<v:%s>|" % p, [body], [], kind="block")]
+
     def method_def(self):
         name = self.fresh("m", "meth")
         ar = self.r.choice([0, 1, 1, 2])
@@ -264,6 +283,10 @@ class Gen:
                 out += self.class_def()
             elif f == "module":
                 out += self.module_def()
+            elif f == "nblock":
+                out += self.nested_block_stmt()
+            elif f == "ublock":
+                out += self.union_block_stmt()
             elif f == "kwdef":
                 out += self.kw_method()
             elif f == "blockdef":
